@@ -9,6 +9,7 @@ import (
 	"encoding/json"
 	"fmt"
 	"math/rand"
+	"net"
 	"sort"
 	"strings"
 	"time"
@@ -26,6 +27,7 @@ type c10Char struct {
 	acc    *accessory.Accessory
 	isBool bool
 	flags  string // r w e u
+	max    int    // declared maximum (0 = none): values above it are clamped by the characteristic
 }
 
 func (k *c10Char) goValue(v int) interface{} {
@@ -76,12 +78,12 @@ func newC10World() *c10World {
 	sw.AddService(extra)
 	w.accs = []*accessory.Accessory{sw.Accessory, lb.Accessory}
 	w.chars = []*c10Char{
-		{"Switch.On", sw.Switch.On.Characteristic, sw.Accessory, true, "rwe-"},
-		{"Lightbulb.Brightness", lb.Lightbulb.Brightness.Characteristic, lb.Accessory, false, "rwe-"},
-		{"custom no-ev", noEv.Characteristic, sw.Accessory, false, "rw--"},
-		{"custom write-only ev", wo.Characteristic, sw.Accessory, false, "-we-"},
-		{"ProgrammableSwitchEvent", pse.Characteristic, sw.Accessory, false, "r-eu"},
-		{"Lightbulb.On", lb.Lightbulb.On.Characteristic, lb.Accessory, true, "rwe-"},
+		{"Switch.On", sw.Switch.On.Characteristic, sw.Accessory, true, "rwe-", 0},
+		{"Lightbulb.Brightness", lb.Lightbulb.Brightness.Characteristic, lb.Accessory, false, "rwe-", 100},
+		{"custom no-ev", noEv.Characteristic, sw.Accessory, false, "rw--", 0},
+		{"custom write-only ev", wo.Characteristic, sw.Accessory, false, "-we-", 0},
+		{"ProgrammableSwitchEvent", pse.Characteristic, sw.Accessory, false, "r-eu", 0},
+		{"Lightbulb.On", lb.Lightbulb.On.Characteristic, lb.Accessory, true, "rwe-", 0},
 	}
 	return w
 }
@@ -186,9 +188,19 @@ func c10History(c *Ctx, id string, r *rand.Rand) (string, string) {
 		}
 	}
 	steps += len(script)
+	forceLocal := -1
 	for s := 0; s < steps; s++ {
 		var tok string
-		if s < len(script) {
+		if forceLocal >= 0 {
+			// right after a connection vanished: change a characteristic somebody else is subscribed to, at once
+			ch := forceLocal
+			forceLocal = -1
+			v := r.Intn(3)
+			if w.chars[ch].isBool {
+				v = r.Intn(2)
+			}
+			tok = fmt.Sprintf("local %d %d", ch, v)
+		} else if s < len(script) {
 			tok = script[s]
 		} else {
 			cn := 1 + r.Intn(nconn)
@@ -197,6 +209,9 @@ func c10History(c *Ctx, id string, r *rand.Rand) (string, string) {
 			if w.chars[ch].isBool {
 				v = r.Intn(2)
 			}
+			if w.chars[ch].max > 0 { // bounded: also values at and beyond the limit (the characteristic clamps them)
+				v = []int{0, 1, 2, w.chars[ch].max - 1, w.chars[ch].max, w.chars[ch].max, w.chars[ch].max + 1, w.chars[ch].max + 20, 250}[r.Intn(9)]
+			}
 			switch k := r.Intn(20); {
 			case k < 1:
 				tok = fmt.Sprintf("connect %d", cn)
@@ -204,6 +219,9 @@ func c10History(c *Ctx, id string, r *rand.Rand) (string, string) {
 				tok = fmt.Sprintf("verify %d", cn)
 			case k < 4:
 				tok = fmt.Sprintf("close %d", cn)
+				if r.Intn(2) == 0 {
+					tok = fmt.Sprintf("kill %d", cn)
+				}
 			case k < 7:
 				tok = fmt.Sprintf("sub %d %d", cn, ch)
 			case k < 9:
@@ -217,6 +235,7 @@ func c10History(c *Ctx, id string, r *rand.Rand) (string, string) {
 		f := strings.Fields(tok)
 		num := func(i int) int { var x int; fmt.Sscan(f[i], &x); return x }
 		skip := false
+		noFence := false
 		origin := 0
 		changed := -1 // characteristic whose value the reference expects to change (or to be re-notified)
 		sameValue := false
@@ -245,6 +264,28 @@ func c10History(c *Ctx, id string, r *rand.Rand) (string, string) {
 			}
 			conns[cn].Upgrade(vr.Shared)
 			verified[cn] = true
+		case "kill":
+			// the controller vanishes (connection reset) and the very next thing that happens is a value change: the fan-out
+			// meets a session whose connection is dead but not yet cleaned up; the other subscribers must still be served
+			cn := num(1)
+			if conns[cn] == nil {
+				skip = true
+				break
+			}
+			if tc, ok := conns[cn].conn.(*net.TCPConn); ok {
+				tc.SetLinger(0)
+			}
+			conns[cn].Close()
+			conns[cn], verified[cn], subs[cn] = nil, false, nil
+			tok = fmt.Sprintf("close %d", cn) // for the model this is a close
+			noFence = true
+			for ch := range w.chars {
+				for o := 1; o <= nconn; o++ {
+					if conns[o] != nil && verified[o] && subs[o][ch] {
+						forceLocal = ch
+					}
+				}
+			}
 		case "close":
 			cn := num(1)
 			if conns[cn] == nil {
@@ -274,23 +315,33 @@ func c10History(c *Ctx, id string, r *rand.Rand) (string, string) {
 				}
 			}
 		case "local":
-			ch, v := num(1), num(2)
+			ch, raw := num(1), num(2)
 			k := w.chars[ch]
+			v := raw
+			if k.max > 0 && v > k.max {
+				v = k.max
+			}
+			tok = fmt.Sprintf("local %d %d", ch, v) // the model gets the effective (clamped) value, the code the raw one
 			want := natOfJSON(k.goValue(v))
 			sameValue = cur[ch] == want
-			k.c.UpdateValue(k.goValue(v))
+			k.c.UpdateValue(k.goValue(raw))
 			changed = ch
 			if strings.Contains(k.flags, "r") {
 				cur[ch] = want
 			}
 		case "remote":
-			cn, ch, v := num(1), num(2), num(3)
+			cn, ch, raw := num(1), num(2), num(3)
 			if conns[cn] == nil {
 				skip = true
 				break
 			}
 			k := w.chars[ch]
-			vb, _ := json.Marshal(k.goValue(v))
+			v := raw
+			if k.max > 0 && v > k.max {
+				v = k.max
+			}
+			tok = fmt.Sprintf("remote %d %d %d", cn, ch, v)
+			vb, _ := json.Marshal(k.goValue(raw))
 			body := fmt.Sprintf(`{"characteristics":[{"aid":%d,"iid":%d,"value":%s}]}`, k.acc.ID, k.c.ID, vb)
 			if _, err := conns[cn].Do("PUT", "/characteristics", "application/hap+json", []byte(body)); err != nil {
 				c.Violate("request on an open connection fails", id, append(toks, tok), "response", err.Error())
@@ -313,7 +364,7 @@ func c10History(c *Ctx, id string, r *rand.Rand) (string, string) {
 		got := map[int]int{}
 		for cn := 1; cn <= nconn; cn++ {
 			cl := conns[cn]
-			if cl == nil {
+			if cl == nil || noFence {
 				continue
 			}
 			k0 := w.chars[0]
